@@ -31,6 +31,7 @@ Definition kind_of_N (k : N) : dkind :=
   else if k =? 12 then KNoWriteDir else KSrcUnreadable.
 
 Definition src_path : N := 0.
+Definition tmp_path : N := 4.   (* the temporary name of the replace strategy, in the destination's directory *)
 Definition third_path : N := 3.
 Definition dst_path (k : dkind) : N := match k with KSamePath | KDotSpelling => 0 | _ => 1 end.
 
@@ -63,15 +64,18 @@ Definition scenario (k : dkind) (otherdev srcmissing : bool) (c : list N) : fs :
        else None)
     3
     (fun e =>
-       if e =? 1 then match k with KParentMissing => PMissing | KParentFile => PNotDir | KDevFull => POk 2 | _ => POk d end
+       if (e =? 1) || ((e =? 4) && (dst_path k =? 1)) then match k with KParentMissing => PMissing | KParentFile => PNotDir | KDevFull => POk 2 | _ => POk d end
        else if e =? 2 then match k with KSymlinkDevFull => POk 2 | _ => POk d end
        else POk 0).
 
 (** the fault a scenario provokes: which call fails, and how *)
-Definition scenario_faults (k : dkind) : faults :=
+Definition scenario_faults (replace : bool) (k : dkind) : faults :=
   fun st =>
     match k, st with
-    | KDevFull, SCopy | KSymlinkDevFull, SCopy => Short 0 ENOSPC
+    | KDevFull, SCopy | KSymlinkDevFull, SCopy =>
+        (* the device fails every write; the replace strategy writes its temporary file, not the device *)
+        if replace then Pass else Short 0 ENOSPC
+    | KNoWriteDir, STmpRename => Fail EACCES
     | KNoWriteDir, SRename | KNoWriteDir, SCreate => Fail EACCES
     | KSrcUnreadable, SOpen => Fail EACCES
     | _, _ => Pass
